@@ -491,6 +491,16 @@ func (*CountingWindow).SetCallback
   modifies cw.callback
   ensures cw.callback == callback
 
+// ingest side: every row offered to a running window is handed to the window goroutine (or the window is shutting down);
+// no row is dropped for what it contains
+func (*CountingWindow).Add
+  props C09
+  option channel_events
+  acquires cw.mu
+  modifies ghost(sends), ghost(dones)
+  ensures a-row-offered-to-a-running-window-is-queued-or-the-window-is-stopping: !old(cw.stopped) ==> ghost(sends) + ghost(dones) == old(ghost(sends)) + old(ghost(dones)) + 1
+  ensures a-stopped-window-takes-nothing: old(cw.stopped) ==> ghost(sends) == old(ghost(sends))
+
 func (*CountingWindow).Start$1
   props C09
   modifies *
